@@ -28,6 +28,9 @@ type Image struct {
 	Type     elf.Type
 	// TextStartDelta is runtime.text minus the address of .text (non-zero with external linking)
 	TextStartDelta uint64
+	// pcln is the raw pclntab section, pclnText the link-time address its entry offsets are relative to
+	pcln     []byte
+	pclnText uint64
 }
 
 // LoadImage reads .text, the pclntab function table and .symtab of a Go binary.
@@ -59,6 +62,7 @@ func LoadImage(path string) (*Image, error) {
 		if err != nil {
 			return nil, err
 		}
+		im.pcln, im.pclnText = pd, ts.Addr
 		tab, err := gosym.NewTable(nil, gosym.NewLineTable(pd, ts.Addr))
 		if err != nil {
 			return nil, fmt.Errorf("%s: pclntab: %v", path, err)
@@ -79,6 +83,7 @@ func LoadImage(path string) (*Image, error) {
 			if hdr > ts.Addr && hdr < ts.Addr+uint64(len(im.Text)) {
 				rebase += hdr - ts.Addr
 				im.TextStartDelta = hdr - ts.Addr
+				im.pclnText = hdr
 			}
 		}
 		for i := range tab.Funcs {
